@@ -519,6 +519,9 @@ func (c *FnVC) nilCheck(p ssa.Value, in ssa.Instruction) {
 	if _, isG := p.(*ssa.Global); isG {
 		return
 	}
+	if _, isFV := p.(*ssa.FreeVar); isFV {
+		return // the address of a captured variable is never nil
+	}
 	if _, isFA := p.(*ssa.FieldAddr); isFA {
 		return // derived from a checked pointer
 	}
